@@ -324,9 +324,10 @@ ADDED6 = {
 }
 
 ADDED7 = {
-    'C02': ' D1 also: the byte-emission loop of asm_all_candidate is evaluated from its source on 6 displacement kinds x 8 immediate lists x 2 operand-size modes: prefix + opcode + every value little-endian in the width and signedness of its checked size, back to back, symbol offsets at the values.',
+    'C02': ' D1 also: the byte-emission loop of asm_all_candidate is evaluated from its source on 6 displacement kinds x 8 immediate lists x 2 operand-size modes: prefix + opcode + every value little-endian in the width and signedness of its checked size, back to back, symbol offsets at the values. D2: check_imm_size is evaluated on 6 size tokens x 20 boundary values (refused exactly outside the range, returned in the class of that width); D3: the 16/32-bit vote is decided by interpreting asm_candidates up to the decision (helper methods followed).',
+    'C03': ' D13: the segment override of a memory operand stands in front of the mandatory prefix of an MMX/SSE opcode in the prefixes asm_candidates collects (interpreted up to the operand-size decision on 36 lines). D2 / D3 follow the helpers asm_candidates calls; the segm handling and the movlps / movhlps renaming are evaluated, not matched.',
     'C04': ' D19: an assignment to a part of a register keeps the other bits and puts every bit of the value at its place, whatever the kind of the value (ExprAff.__init__ evaluated on slice destinations x value kinds - opaque value, slice, concatenations of 2 / 8 pieces, nested - and compared bit by bit; shared with C11.D5).',
-    'C06': ' D14: every address looked up in the table of stored cells is simplified on every assignment that reaches the lookup (shared with C07.D15).',
+    'C06': ' D14: every address looked up in the table of stored cells is simplified on every assignment that reaches the lookup (shared with C07.D15). D15: eval_ExprOp interpreted as a whole on constant operands (654 operations): a shift / rotate whose count or carry has another width than the value gives a constant of the value\'s width equal to the operator\'s evaluator; every interpreted operator on operands of one width gives that width.',
     'C07': ' D15: every address looked up in the table of stored cells (`X in pool_mem`, `pool_mem[X]`, X handed to a lookup method) is simplified on every reaching assignment, loop-carried ones included.',
     'C09': ' D15: both renderings determine the immediate (x86_mn.__str__ interpreted on every decoder form with an immediate; shared with C01.D13).',
     'C10': ' D1: a raise of get_afs is dead only if get_afs, evaluated on every (ModRM, SIB) pair of the four tables init_pre_modrm builds (evaluated statically), returns an operand.',
@@ -334,7 +335,7 @@ ADDED7 = {
     'C12': ' D17 also recognises the try / except AttributeError attribute memo and a table memo kept on the instance (`if K in self.T: return self.T[K]`), and follows control dependence (a value assigned under a test or in a loop over a parameter is computed from that parameter) and tuple targets.',
     'C13': ' Order groups whose operands first differ in the value of a constant leaf (memory displacements incl. the top-bit boundary, masks, arms of a conditional, shift counts). sorted(key=functools.cmp_to_key(f)) is interpreted.',
     'C15': ' The family holds concatenations that are directly a piece of another concatenation (alone, under +, as address, sliced, as arm).',
-    'C16': ' D6: a value memoised on a pattern / expression node is computed from that node only (shared with C12.D17). D7: MatchExpr interpreted with the node classes of expression.py on pattern objects matched before with other wildcard lists gives the answer of a fresh pattern (112 calls). D2 evaluates pairs its data-only nodes cannot follow with the interpreted classes.',
+    'C16': ' D6: a value memoised on a pattern / expression node is computed from that node only (shared with C12.D17). D7: MatchExpr interpreted with the node classes of expression.py on pattern objects matched before with other wildcard lists gives the answer of a fresh pattern (112 calls). D2 evaluates pairs its data-only nodes cannot follow with the interpreted classes, and a binding for a node that is not one of the wildcards is unsound.',
     'C17': ' D2 also: get_im_fmt asked the 16 questions of one table object in two orders answers like a fresh object (no answer depends on what was decoded before).',
     'C19': ' D12: subtraction groups to the left in both operand grammars (productions read from the p_ docstrings: an ambiguous E : E - E needs a left entry shared with +, a stratified grammar recurses on the left).',
 }
